@@ -8,7 +8,9 @@ import (
 
 var Checks = map[string]func(*Env) (int, error){
 	"C06": CheckC06,
+	"C07": CheckC07,
 	"C09": CheckC09,
+	"C13": CheckC13,
 }
 
 // Replay re-executes a replay file against the current working tree.
@@ -38,6 +40,22 @@ func Replay(e *Env, path string) (int, error) {
 			return 2, err
 		}
 		eng = &c09Engine{e, bin}
+	case "histsim":
+		bin, err := e.BuildHarness("./harness/srcsim", "srcsim")
+		if err != nil {
+			return 2, err
+		}
+		eng = &c13Engine{e, bin, NewSolo(e, bin)}
+	case "coldsim":
+		src, err := e.BuildHarness("./harness/srcsim", "srcsim")
+		if err != nil {
+			return 2, err
+		}
+		cold, err := e.BuildHarness("./harness/coldsim", "coldsim")
+		if err != nil {
+			return 2, err
+		}
+		eng = &c07Engine{e: e, src: src, cold: cold}
 	default:
 		return 2, Troublef("unknown engine %q in %s", rf.Engine, path)
 	}
